@@ -240,6 +240,9 @@ MonSnapshot ==
       alltasks == UNION {SeqSet(SnapEnv(e).tasks) : e \in SnapEnvs}
   IN
     Soft("OneOwner", \A t \in alltasks : Cardinality(lists(t)) <= 1, {t \in alltasks : Cardinality(lists(t)) > 1})
+  \* at any time: the owner GetTask reports is the environment that locked the task last and has not released it since
+  + Soft("OwnerAgrees", \A t \in SnapTasks : SnapTask(t).owner = (IF Get(mown, t, None) = None THEN "" ELSE mown[t]),
+         {<<t, SnapTask(t).owner, Get(mown, t, None)>> : t \in {u \in SnapTasks : SnapTask(u).owner # (IF Get(mown, u, None) = None THEN "" ELSE mown[u])}})
   \* at any time: a task an environment owns stays in the roster (GetTasks), whatever is done for other environments
   + Soft("OwnedInRoster", \A t \in mrost : (Get(mown, t, None) # None /\ t \notin mlost) => t \in SnapTasks,
          {<<t, mown[t]>> : t \in {u \in mrost : Get(mown, u, None) # None /\ u \notin mlost /\ u \notin SnapTasks}})
